@@ -40,6 +40,9 @@ SRCS = ['libks/buffer.c', 'compat-arc4random.c', 'compat-errc.c', 'compat-pledge
         'message.c', 'parse.c', 'time.c', 'util.c', 'libks/vector.c']
 
 
+DEGRADED = []      # ties between model and code that could not be established on this run (see Scratch.unit_harness)
+
+
 class CheckError(Exception):
     """Infrastructure failure inside a check (reported as a broken obligation)."""
 
@@ -194,7 +197,14 @@ class Scratch:
                link + ['-o', out])
         r = subprocess.run(cmd, capture_output=True, text=True)
         if r.returncode != 0:
-            raise CheckError('harness %s does not build: %s' % (name, r.stderr[-3000:]))
+            # a static function the harness calls directly may have changed its signature (a harmless rewrite as far as the
+            # properties go): build without the ops on static functions, so that the public-interface ops and the process-level
+            # stages still search for a failing input; the lost tie is reported at the end of the check (lean_conclude)
+            r2 = subprocess.run(cmd[:1] + ['-DHARNESS_NO_STATICS'] + cmd[1:], capture_output=True, text=True)
+            if r2.returncode != 0:
+                raise CheckError('harness %s does not build: %s' % (name, r.stderr[-3000:]))
+            DEGRADED.append('harness %s builds only without its ops on static functions: %s' % (name, r.stderr[-1500:]))
+            log(DEGRADED[-1][:300])
         return out
 
     def binary(self, flavour='plain'):
@@ -641,6 +651,8 @@ class Differential:
         self.evals += len(reqs)
         for i, r in enumerate(reqs):
             ok_h = H(r) if H else True
+            if impl[i] == 'BADOP' and DEGRADED:
+                continue              # an op on a static function that this build of the harness does not have
             if impl[i].startswith('FAULT'):
                 self.faults.append((r, impl[i], model[i]))
             elif spec[i] is not None and ok_h and impl[i] != spec[i]:
@@ -739,3 +751,7 @@ def lean_conclude(rep):
     lb = rep.lean
     if not lb['ok'] and not rep.violations:
         rep.violation({'obligation': 'Lean proof obligations', 'problems': lb['problems']}, False)
+    if DEGRADED and not rep.violations:
+        rep.violation({'obligation': 'correspondence of static functions with the model: the unit harness no longer builds with its '
+                                     'direct calls of static functions, so those functions are not tied to the model on this run; the '
+                                     'remaining stages found no failing input', 'problems': list(DEGRADED)}, False)
